@@ -12,7 +12,8 @@ Import ListNotations.
 (** reduce the behaviour switches of [repaired] *)
 Ltac beh := cbn [repaired b_df_checks b_df_cols_check b_mtag_pos_first b_array_checks_first b_meta_lookup_first
                  b_link_lookup_first b_ext_check_first b_values_check_first b_prop_type_check b_prop_values_uniform
-                 b_esrc_by_name b_uuid_name_links b_replace_all_atomic b_feature_null_guard b_delsource_by_id b_valid_reachable andb negb].
+                 b_esrc_by_name b_uuid_name_links b_replace_all_atomic b_feature_null_guard b_delsource_by_id b_valid_reachable b_setdata_type_first b_append_type_first
+                 b_df_colname_check b_array_rank_max andb negb].
 
 Section Shape.
 Variable ids : nat -> string.
@@ -372,11 +373,13 @@ Proof.
     destruct (lookup_named ids pk _ name) eqn:L; [apply shape_fail|].
     destruct (negb (h5_storable dt)); [apply shape_fail|].
     destruct (List.length _ =? 0); [apply shape_fail|].
+    destruct (32 <? List.length _); [apply shape_fail|].
     apply create_backend_shape; auto; [intros _; eapply named_side; eauto | apply links_alive_none].
   - (* frame *)
     destruct (check_name name) eqn:CN; [apply shape_fail|]. destruct (is_empty_str type); [apply shape_fail|].
     destruct (lookup_named ids pk _ name) eqn:L; [apply shape_fail|].
     destruct (List.length cols =? 0) eqn:LC; [apply shape_fail|].
+    destruct (existsb _ cols); [apply shape_fail|].
     destruct (existsb _ cols); [apply shape_fail|].
     destruct (dup_col [] cols); [apply shape_fail|].
     apply create_backend_shape; auto; [intros _; eapply named_side; eauto | apply links_alive_none].
@@ -673,6 +676,13 @@ Proof.
   - (* deleteDimensions *)
     destruct (e_kind e); try apply shape_fail. apply TUpd. apply good_with_links; auto. intros e' He' _.
     apply links_alive_set_dims; [apply (inv_links _ _ _ H _ He')|]. intros t [].
+  - (* setData(value) *)
+    destruct (e_kind e); try apply shape_fail. destruct (dtype_writable mem _); cbn [negb]; [|apply shape_fail].
+    destruct (negb _); [apply shape_fail|]. apply TUpd, good_with_pay; auto.
+  - (* appendData *)
+    destruct (e_kind e); try apply shape_fail. destruct (_ <=? axis); [apply shape_fail|].
+    destruct (negb (_ =? _)); [apply shape_fail|]. destruct (negb (same_but _ _ _ _)); [apply shape_fail|].
+    destruct (dtype_writable mem _); cbn [negb]; [|apply shape_fail]. apply TUpd, good_with_pay; auto.
   - (* a write outside the model *)
     destruct (existsb _ ks); [apply shape_ret_same|apply shape_fail].
 Qed.
